@@ -125,7 +125,9 @@ class StreamingHandler(AsyncCallbackHandler, AsyncIterator):
         """When we disable the buffer, we process the buffer as a chunk."""
         self.enable_buffer = False
 
-        await self.push_chunk(self.buffer)
+        # (an empty chunk would be taken for the end of the stream)
+        if self.buffer:
+            await self.push_chunk(self.buffer)
         self.buffer = ""
         if self.llm_ended_while_buffering:
             self.llm_ended_while_buffering = False
